@@ -51,9 +51,9 @@ CLAIMED = {
    "Process-crash model (completed writes survive). Bounds per scenario in the evidence. Known finding F-C02-claimed-entries-leak is reported, not failed. Index-growth histories are not in the crash sets yet (C09 not built).",
    "DESIGN.md §3 E2, §4 C02"),
  "C03": ("seqmc+crashmc", "fault_enumeration",
-   "graph search with drop+reopen offered at every pipeline state (clean-shutdown clause) and crash-image enumeration with a durability lower bound derived from observed sync operations (synced-records clause)",
+   "graph search with drop+reopen offered at every pipeline state (clean-shutdown clause) and crash-image enumeration with a durability lower bound derived from observed sync operations (synced-records clause); loom exploration (preemption-bounded DPOR) of the real worker loops with the handle dropped at every reachable point",
    "(a) reopen (drop, open) at every state of the graph (commits queued / logged / synced / half-applied files / several files pending): afterwards all accepted commits are present in order; (b) every crash image of every edge judged with lo = commits whose log file was fdatasync'ed before the crash point.",
-   "Stepping mode (no threads): the threaded drop needs the loom engine (not built). Reindex-pending drops need the growth family (C09, not built).",
+   "`./check C03` runs two parts side by side: the stepping part (evidence C03.json; includes C09's growth family: drop and crash at every state of an index growth) and the threaded part under loom (evidence C03-loom.json): the crate's real worker loops (all four, or a subset, the others never running before the drop) while a client commits three order-sensitive transactions over a hash and a btree column and drops the handle wherever the workers are; after the drop the directory is opened without threads and must show all three in order. Preemption bound 1 complete, 2 to the wall cap.",
    "DESIGN.md §4 C03"),
  "C12": ("crashmc", "fault_enumeration",
    "exhaustive power-loss enumeration on recorded I/O traces (of every edge of the bounded state graph, and of every loom schedule of the real commit/cleanup workers): crash point x subset of unsynced 4 KiB pages of mapped files x length of the unsynced tail of appended files, recovery + prefix oracle with durability lower bound",
@@ -150,7 +150,7 @@ def main():
             {"name": "admin", "path": "/verif/mc/src/props/c17.rs", "serves_properties": ["C17"], "kind_free_text": "exhaustive sweeps over option combinations, layouts and administration calls"},
             {"name": "handles", "path": "/verif/mc/src/props/c18.rs", "serves_properties": ["C18"], "kind_free_text": "exhaustive open/drop sequences, second-opener injection at I/O boundaries, holder process killed at every recovery step"},
             {"name": "migrate", "path": "/verif/mc/src/props/c20.rs", "serves_properties": ["C20"], "kind_free_text": "exhaustive sweep over migration configurations through the real migrate()"},
-            {"name": "loommc", "path": "/verif/mc-loom", "serves_properties": ["C05", "C09", "C11", "C12", "C15", "C16"], "kind_free_text": "loom (vendored 0.5.6 with MAX_THREADS 8) over the real crate built with its loom feature; fresh OS thread per execution stepped through loom's checkpoint file"},
+            {"name": "loommc", "path": "/verif/mc-loom", "serves_properties": ["C03", "C05", "C09", "C11", "C12", "C15", "C16"], "kind_free_text": "loom (vendored 0.5.6 with MAX_THREADS 8) over the real crate built with its loom feature; fresh OS thread per execution stepped through loom's checkpoint file"},
             {"name": "seqmc", "path": "/verif/mc", "serves_properties": sorted([k for k, v in CLAIMED.items() if "seqmc" in v[0]]),
              "kind_free_text": "bounded exhaustive graph search over histories x pipeline-stage schedules of the real Db in stepping mode, reference models, pipeline model PM in lock-step"},
         ],
